@@ -36,6 +36,7 @@ def run(ctx):
     ctx.do(CA.rule_query_purity, "CoxeterGroup", ["bilinear_form", "cartan_matrix", "tits_vinberg_rep"])
     ctx.do(D.rule_t3, [CORE, HYP, 'geometry_tools/projective.py'])
     ctx.do(D.rule_lk1, [HYP, 'geometry_tools/projective.py', 'geometry_tools/complex_projective.py'])
+    ctx.do(D.rule_lk3, [HYP, 'geometry_tools/projective.py', 'geometry_tools/complex_projective.py'])
     ctx.do(SI.rule_of1)
     ctx.do(DG.rule_hd1)
     ctx.do(CA.rule_c2, "ProjectiveObject")
